@@ -63,6 +63,44 @@ func historySet() []string {
 	return out
 }
 
+// runLocalZones: the process's local zone is part of the environment. With time.Local set to zones that change
+// their offset during the year (embedded tzdata), timestamps of both seasons and with offsets equal to either of the
+// zone's offsets must still parse to the instant and offset the standard library gives.
+func runLocalZones(c *fw.Ctx) {
+	saved := time.Local
+	defer func() { time.Local = saved }()
+	n := 0
+	for _, zn := range []string{"Europe/London", "America/New_York", "Australia/Lord_Howe", "Asia/Kolkata"} {
+		loc, err := time.LoadLocation(zn)
+		if err != nil {
+			c.HarnessError("tzdata: " + err.Error())
+			return
+		}
+		time.Local = loc
+		for _, date := range []string{"2026-01-15", "2026-07-01", "2026-03-29", "2026-10-25", "1969-07-20", "0001-01-01", "9999-12-31"} {
+			for _, tm := range []string{"T00:00:00", "T01:30:00", "T12:00:00.5", "T23:59:59,999999999"} {
+				for _, off := range []string{"Z", "+00:00", "+01:00", "-05:00", "-04:00", "+10:30", "+11:00", "+05:30", "-00:00"} {
+					s := date + tm + off
+					n++
+					c.Eval(1)
+					got, err, pan, _ := decodeTime(s)
+					want, perr := time.Parse(time.RFC3339, s)
+					if perr != nil {
+						continue
+					}
+					c.NontrivialN(1)
+					_, wo := want.Zone()
+					_, g := got.Zone()
+					if pan != nil || err != nil || !got.Equal(want) || g != wo {
+						c.Violation("wrong-instant|process-zone", fmt.Sprintf("with time.Local = %s, timestamp %q parses to %s (err=%v panic=%v), the standard library says %s", zn, s, got.Format(time.RFC3339Nano), err, pan, want.Format(time.RFC3339Nano)), zn+" "+s)
+					}
+				}
+			}
+		}
+	}
+	c.Sample(map[string]interface{}{"kind": "process zone varied", "zones": 4, "timestamps": n})
+}
+
 func runHistories(c *fw.Ctx) {
 	set := historySet()
 	check := func(seq []string) {
@@ -406,6 +444,7 @@ func tasks18(tier string) []task18 {
 		}})
 	}
 	ts = append(ts, task18{"histories-through-a-reused-buffer", runHistories})
+	ts = append(ts, task18{"process-zone-with-daylight-saving", runLocalZones})
 	memo18[tier] = ts
 	return ts
 }
@@ -419,7 +458,7 @@ func init() {
 			if tier == "thorough" {
 				a, l = "{0,1,9}", 12
 			}
-			return fmt.Sprintf("exhaustive grammar product pushed through the public path (string field decoded into time.Time / null.Time by codecs from Schema.Codec): year {0000,0001,1969,1970,2024,9999} × month 01-12 × day {01,28,29,30,31} × hour {00,12,23} × minute,second {00,30,59} × 7 fraction shapes × 11 zones; every fraction digit string over %s of length 1..%d × {'.',','} × 11 zones × 2 base times; 9 digit patterns stretched to 11..45 fraction digits; all date-only strings of the grid; format→parse identity over 6 base times × 8 offsets × 40 nanosecond values (time.Time and null.Time); every truncation and single-character deletion/duplication/substitution (alphabet \"09-:T.,Z+x /\") of 6 valid timestamps; every string is decoded from one reused buffer (its bytes overwrite the previous string's), and every ordered pair of 38 valid timestamps and every triple of 8 is decoded as a history; non-trivial = the standard library accepts the string (time.Parse RFC3339 / 2006-01-02) so instant and offset were compared; all strings are checked for panics", a, l)
+			return fmt.Sprintf("exhaustive grammar product pushed through the public path (string field decoded into time.Time / null.Time by codecs from Schema.Codec): year {0000,0001,1969,1970,2024,9999} × month 01-12 × day {01,28,29,30,31} × hour {00,12,23} × minute,second {00,30,59} × 7 fraction shapes × 11 zones; every fraction digit string over %s of length 1..%d × {'.',','} × 11 zones × 2 base times; 9 digit patterns stretched to 11..45 fraction digits; all date-only strings of the grid; format→parse identity over 6 base times × 8 offsets × 40 nanosecond values (time.Time and null.Time); every truncation and single-character deletion/duplication/substitution (alphabet \"09-:T.,Z+x /\") of 6 valid timestamps; every string is decoded from one reused buffer (its bytes overwrite the previous string's), and every ordered pair of 38 valid timestamps and every triple of 8 is decoded as a history; with the process zone (time.Local) set to four zones incl. three with daylight saving, 1008 timestamps of both seasons with offsets equal and unequal to the zone's; non-trivial = the standard library accepts the string (time.Parse RFC3339 / 2006-01-02) so instant and offset were compared; all strings are checked for panics", a, l)
 		},
 		Assumptions: []string{
 			"time.Parse(time.RFC3339, s) of the toolchain is the oracle: the claim is made only for strings it accepts",
